@@ -126,6 +126,7 @@ def run(F, R, tier):
             for k, w in want.items():
                 R.ob("filter-template", texts[k], got.get(k) == w, "compiled as %s" % sorted(got.get(k, [])), F.loc(cf) if cf else "")
             R.ob("filter-template", "no other pattern/action combination is compiled", set(got) == set(want), str(sorted(got, key=repr)))
+    E.num_locals_rule(F, R, "compile_filter_statement", "a filter's frame reserves one slot per local of the filter's own scope")
     # ---- (b) per-packet typestate --------------------------------------------------------------------------------------------
     b = H.body_of(rf)
     interesting = {"next_packet", "set_curr_pkt", "update_builtin_var", "push_filter_frame", "run", "pop_filter_frame", "write_all",
